@@ -20,6 +20,11 @@ CHECKS = {
         technique="property-based testing (Hypothesis) with exhaustive enumeration of single faults (class x attribute occurrence x instance position) per generated conforming population; oracle: severity/exit status threshold + confinement against the generator's model",
         text="Every applicable single fault of the statement's classes is applied in turn at every instance/part/attribute position of generated conforming populations; the real reader must end with severity <= INCOMPLETE and p21read must exit non-zero, and every other instance (not referring to the faulted one) must still serialise to its model value.",
         note="Faults are generated only where the result is certainly outside ISO 10303-21 or the schema (table WRONG in lib/checks/c03.py). For unterminated records confinement is asserted only for earlier instances. Open finding F46 (recovery not string aware) is excluded by construction (strings without delimiters in the main campaign, probes with them). Layout noise is white space only."),
+    "C08": dict(
+        level="exploration", ref="DESIGN.md section 4 C08",
+        technique="property-based testing (Hypothesis-generated inheritance graphs and supertype expressions) with exhaustive enumeration of all 2^n-1 entity subsets per graph x two part orders; oracle = two independent legality predicates (lib/expmodel.legal_set and the constructive ISO 10303-11 Annex B enumeration in lib/complexref.py) that must agree",
+        text="For every generated graph all non-empty subsets are written as externally mapped instances (twice, with permuted parts and shuffled instances) and read by the real library; an instance must be created iff both reference predicates call the set legal, refused instances must not disturb the others, created instances must serialise to the model, and part order must not matter. Exhaustive per graph over subsets.",
+        note="Graphs on which the two references disagree (redundant supertype corners, ~3%) are excluded and counted. Singletons are executed but not asserted (ISO 10303-21 requires internal mapping for one part). Open finding F59 (constraint violated at one occurrence of a multiply inheriting entity) is matched by an input-only shape predicate; 2 probes per shape and graph."),
     "C09": dict(
         level="exploration", ref="DESIGN.md section 4 C09",
         technique="exhaustive enumeration of short token strings per literal kind x delimiter context + rapidcheck random long tokens and writer grid, in-process against DFA recognisers transcribed from the Part 21 BNF and strtod/128-bit integer value functions",
